@@ -244,11 +244,61 @@ func (e *Eng) readFullFast(fr *frame, r Iface, buf SliceVal) (*Term, Value, bool
 	return avail, e.errUnexpectedEOF(), true
 }
 
+// readFullSection: io.ReadFull from an *io.SectionReader over a *bytes.Reader when the request lies
+// inside both (one decision, position advances by exactly the request); other cases fall back to the
+// generic path.
+func (e *Eng) readFullSection(fr *frame, r Iface, buf SliceVal) (*Term, Value, bool) {
+	tb := e.tb
+	pt, ok := r.T.(*types.Pointer)
+	if !ok {
+		return nil, nil, false
+	}
+	nt, ok := pt.Elem().(*types.Named)
+	if !ok || nt.Obj().Pkg() == nil || nt.Obj().Pkg().Path() != "io" || nt.Obj().Name() != "SectionReader" {
+		return nil, nil, false
+	}
+	if _, isNil := r.V.(NilPtr); isNil {
+		return nil, nil, false
+	}
+	under, ok := (*e.fieldPtr(r.V, nt, "r")).(Iface)
+	if !ok || under.T == nil {
+		return nil, nil, false
+	}
+	upt, ok := under.T.(*types.Pointer)
+	if !ok {
+		return nil, nil, false
+	}
+	unt, ok := upt.Elem().(*types.Named)
+	if !ok || unt.Obj().Pkg() == nil || unt.Obj().Pkg().Path() != "bytes" || unt.Obj().Name() != "Reader" {
+		return nil, nil, false
+	}
+	if _, isNil := under.V.(NilPtr); isNil {
+		return nil, nil, false
+	}
+	offp := e.fieldPtr(r.V, nt, "off")
+	off := (*offp).(*Term)
+	limit := (*e.fieldPtr(r.V, nt, "limit")).(*Term)
+	data := (*e.fieldPtr(under.V, unt, "s")).(SliceVal)
+	end := tb.Add(off, buf.Len)
+	inside := tb.And(tb.Sle(tb.I64(0), off), tb.Sle(off, end), tb.Sle(end, limit), tb.Sle(end, data.Len))
+	if !e.Decide(inside) {
+		return nil, nil, false
+	}
+	if data.Obj != nil && buf.Obj != nil {
+		e.bcopy(buf.Obj, buf.Off, buf.Len, data.Obj.cont, tb.Add(data.Off, off))
+	}
+	e.storeSlot(offp, end)
+	return buf.Len, Iface{}, true
+}
+
 // readFull models io.ReadFull(r, buf).
 func (e *Eng) readFull(fr *frame, r Iface, buf SliceVal) (*Term, Value) {
 	tb := e.tb
 	if r.T != nil {
 		if n, err, ok := e.readFullFast(fr, r, buf); ok {
+			return n, err
+		}
+		if n, err, ok := e.readFullSection(fr, r, buf); ok {
 			return n, err
 		}
 	}
@@ -730,6 +780,43 @@ func init() {
 			panic(goPanic{val: Iface{T: types.Typ[types.String], V: n}, msg: n, site: n})
 		})
 	}
+
+	// ---- internal/bytealg (assembly) ----
+	indexByte := func(fr *frame, v SliceVal, c *Term) Value {
+		e := fr.e
+		tb := e.tb
+		if v.Obj == nil {
+			return tb.I64(-1)
+		}
+		if !v.Len.IsConst() {
+			v.Len = tb.Const(64, e.concretize(v.Len, 1<<12))
+		}
+		r := tb.I64(-1)
+		for i := int64(v.Len.C) - 1; i >= 0; i-- {
+			r = tb.Ite(tb.Eq(e.sliceAt(v, tb.I64(i)), c), tb.I64(i), r)
+		}
+		return r
+	}
+	reg("internal/bytealg.IndexByte", func(fr *frame, a []Value) Value { return indexByte(fr, a[0].(SliceVal), a[1].(*Term)) })
+	reg("internal/bytealg.IndexByteString", func(fr *frame, a []Value) Value {
+		return indexByte(fr, fr.e.strView(a[0]), a[1].(*Term))
+	})
+	reg("internal/bytealg.Equal", func(fr *frame, a []Value) Value {
+		e := fr.e
+		x, y := a[0].(SliceVal), a[1].(SliceVal)
+		if x.Obj == nil || y.Obj == nil {
+			return e.tb.Eq(x.Len, y.Len)
+		}
+		return e.bytesEq(x, y)
+	})
+	reg("bytes.Equal", func(fr *frame, a []Value) Value {
+		e := fr.e
+		x, y := a[0].(SliceVal), a[1].(SliceVal)
+		if x.Obj == nil || y.Obj == nil {
+			return e.tb.Eq(x.Len, y.Len)
+		}
+		return e.bytesEq(x, y)
+	})
 
 	// ---- strings ----
 	reg("strings.ReplaceAll", func(fr *frame, a []Value) Value {
